@@ -173,10 +173,12 @@ QEV = C_POOL[1]                    # queued events
 EXC = ValueError("boom")
 
 
-def _world_j(nw, b0, b1, b2, q, wid, live, snap, policy=None):
+def _world_j(nw, b0, b1, b2, q, wid, live, snap, policy=None, oth=0):
     """Step "j" (accepts EvA/EvB/EvC, ``nw`` workers).  Live buffer "buf" = LIVE[:live]; the ticking worker ``wid``
     saw LIVE[:snap] (snap <= live: the buffer grew since) or OLD[:snap] (snap > live: the buffer was popped since, and
-    possibly refilled).  The other busy workers saw the current buffer.  A second buffer "other" is never touched."""
+    possibly refilled).  The other busy workers saw the current buffer.  A second buffer "other" is never touched by the
+    tick; ``oth``: 0 = it is the same in the ticking worker's snapshot and live, 1 = it was completed and deleted since the
+    snapshot (live: gone), 2 = it grew since the snapshot (live: two events)."""
     nw, q, wid, live, snap = conc(nw, 1, 3), conc(q, 0, 2), conc(wid, 0, 2), conc(live, 0, 2), conc(snap, 0, 2)
     b0, b1, b2 = concb(b0), concb(b1), concb(b2)
     cfg = step_config([EvA, EvB, EvC], nw, policy)
@@ -190,6 +192,10 @@ def _world_j(nw, b0, b1, b2, q, wid, live, snap, policy=None):
             snapshot["buf"] = list(sb)
         ips.append(in_progress("j", X if i == wid else QEV, i, snapshot=snapshot))
     collected = {"other": [C_POOL[0]]}
+    if oth == 1:
+        collected = {}
+    elif oth == 2:
+        collected = {"other": [C_POOL[0], C_POOL[1]]}
     if live > 0:
         collected["buf"] = list(livebuf)
     ws = worker_state(cfg, [EventAttempt(event=QEV) for _ in range(q)], ips, collected, [])
@@ -213,15 +219,16 @@ def _reruns(cmds, wid, ev):
             partitions_thorough=[f"nw == {n} and live == {l}" for n in (1, 2, 3) for l in (0, 1, 2)],
             what="AddCollectedEvent: stale snapshot (live buffer longer than the snapshot) => nothing appended, the SAME "
                  "worker re-run with a refreshed snapshot; otherwise appended exactly once and the invocation committed",
-            bounds={"num_workers": "1..3", "queue": "0..2", "live/snapshot length": "0..2 each (any relation)"})
-def ob_reducer_add(nw: int, b0: bool, b1: bool, b2: bool, q: int, wid: int, live: int, snap: int) -> bool:
+            bounds={"num_workers": "1..3", "queue": "0..2", "live/snapshot length": "0..2 each (any relation)", "second buffer": "unchanged / deleted since the snapshot / grown since"})
+def ob_reducer_add(nw: int, b0: bool, b1: bool, b2: bool, q: int, wid: int, live: int, snap: int, oth: int = 0) -> bool:
     """
     pre: _valid_j(nw, b0, b1, b2, q, wid) and q <= QMAX
-    pre: 0 <= live <= 2 and 0 <= snap <= 2
+    pre: 0 <= live <= 2 and 0 <= snap <= 2 and 0 <= oth <= 2
     post: _
     """
-    nw, q, wid, live, snap = conc(nw, 1, 3), conc(q, 0, 2), conc(wid, 0, 2), conc(live, 0, 2), conc(snap, 0, 2)
-    st = _world_j(nw, b0, b1, b2, q, wid, live, snap)
+    nw, q, wid, live, snap, oth = conc(nw, 1, 3), conc(q, 0, 2), conc(wid, 0, 2), conc(live, 0, 2), conc(snap, 0, 2), conc(oth, 0, 2)
+    st = _world_j(nw, b0, b1, b2, q, wid, live, snap, oth=oth)
+    other_live = [] if oth == 1 else ([C_POOL[0], C_POOL[1]] if oth == 2 else [C_POOL[0]])
     res = [AddCollectedEvent(event_id="buf", event=X), StepWorkerResult(result=None)]
     tick = mk_step_result("j", wid, X, res)
     st2, cmds = _reduce_tick(tick, st, 1, "r")
@@ -229,8 +236,8 @@ def ob_reducer_add(nw: int, b0: bool, b1: bool, b2: bool, q: int, wid: int, live
     after = st2.workers["j"].collected_events.get("buf", [])
     if not same_ids(before, LIVE[:live]):
         return False  # reducer is pure: the pre-state is not mutated
-    if not same_ids(st2.workers["j"].collected_events.get("other", []), [C_POOL[0]]):
-        return False
+    if not same_ids(st2.workers["j"].collected_events.get("other", []), other_live):
+        return False  # a buffer the tick does not name is untouched ... and does not take part in the staleness decision
     if not (rep_R1(st2) and rep_R2(st2)):
         return False
     me = find_ip(st2, "j", wid)
